@@ -65,6 +65,27 @@ func Minimal() map[string][]client.Object {
 			{Name: "gw", SectionName: ptr(gatewayv1.SectionName("tls"))},
 		}, []string{"a.example.com"}, p.Backend{Ref: "svc0", Port: 80, Weight: -1}),
 	)
+	// 5. an INVALID Gateway (here: its GatewayClass object does not exist) has no listeners in the graph, so a parentRef that
+	//    names an existing listener is reported NoMatchingParent, while the parentRef without sectionName gets InvalidGateway
+	var noClass []client.Object
+	for _, o := range base() {
+		if _, isClass := o.(*gatewayv1.GatewayClass); !isClass {
+			noClass = append(noClass, o)
+		}
+	}
+	out["invalid-gateway-section"] = append(noClass,
+		p.Gateway("default", "gw", p.DefaultClass, 2, same(p.Listener{Name: "http", Port: 80, Protocol: "HTTP"})...),
+		p.HTTPRoute("default", "r", 3, []gatewayv1.ParentReference{p.ParentRef("default", "gw", "http")}, nil, rule),
+		p.HTTPRoute("default", "q", 4, []gatewayv1.ParentReference{p.ParentRef("default", "gw", "")}, nil, rule),
+	)
+	// 6. a parentRef to an IGNORED Gateway (younger Gateway of our class) that names one of ITS listeners: the section name is
+	//    looked up among the WINNING Gateway's listeners, so the entry says NoMatchingParent; without sectionName: GatewayIgnored
+	out["ignored-gateway-section"] = append(base(),
+		p.Gateway("default", "gw", p.DefaultClass, 2, same(p.Listener{Name: "http", Port: 80, Protocol: "HTTP"})...),
+		p.Gateway("default", "gw2", p.DefaultClass, 5, same(p.Listener{Name: "web", Port: 8080, Protocol: "HTTP"})...),
+		p.HTTPRoute("default", "r", 6, []gatewayv1.ParentReference{p.ParentRef("default", "gw2", "web")}, nil, rule),
+		p.HTTPRoute("default", "q", 7, []gatewayv1.ParentReference{p.ParentRef("default", "gw2", "")}, nil, rule),
+	)
 	_ = apiv1.ProtocolTCP
 	return out
 }
